@@ -21,6 +21,7 @@ import (
 	"bytes"
 	"compress/flate"
 	"compress/gzip"
+	"compress/zlib"
 	"fmt"
 	"io"
 	"io/ioutil"
@@ -288,7 +289,14 @@ func (mv *MessageView) BodyReader(opts ...Option) (io.ReadCloser, error) {
 		}
 		return gr, nil
 	case "deflate":
-		return flate.NewReader(r), nil
+		// RFC 7230 defines the coding as zlib-wrapped DEFLATE; some servers
+		// send the raw stream. A zlib header is a multiple of 31 whose low
+		// nibble names the compression method 8.
+		br := bufio.NewReader(r)
+		if h, err := br.Peek(2); err == nil && h[0]&0x0f == 8 && (uint(h[0])<<8|uint(h[1]))%31 == 0 {
+			return zlib.NewReader(br)
+		}
+		return flate.NewReader(br), nil
 	default:
 		return ioutil.NopCloser(r), nil
 	}
